@@ -1113,6 +1113,29 @@ def pem_wrap(typ, der_bytes, headers=b''):
         b'\n-----END ' + typ + b'-----\n'
 
 
+EC_OID = {'ec256': '1.2.840.10045.3.1.7', 'ec384': '1.3.132.0.34',
+          'ec521': '1.3.132.0.35'}
+
+
+def der_split(der_bytes):
+    """Elements (as byte strings) of an outer DER SEQUENCE."""
+    assert der_bytes[0] == 0x30
+    hl = 2 if der_bytes[1] < 0x80 else 2 + (der_bytes[1] & 0x7f)
+    body = der_bytes[hl:]
+    out = []
+    i = 0
+    while i < len(body):
+        ln = body[i + 1]
+        h = 2
+        if ln >= 0x80:
+            n = ln & 0x7f
+            ln = int.from_bytes(body[i + 2:i + 2 + n], 'big')
+            h = 2 + n
+        out.append(body[i:i + h + ln])
+        i += h + ln
+    return out
+
+
 ENC_PW = 'encoding-pw'
 ENC_SALT = bytes(range(1, 65))
 ENC_ITER = {'1': 1, '2048': 2048, 'large': 65537}
@@ -1241,18 +1264,81 @@ def encode_case(row, k):
             (pubblob and S(pubblob)) * row['nkeys'] + S(sect)
         return dict(pem=pem_wrap(b'OPENSSH PRIVATE KEY', blob), pw=None,
                     comment=cm or None)
+    if scheme == 'p8env':
+        from cryptography.hazmat.primitives import serialization as ser
+        ver, alg, priv = der_split(pyca_private_der(pk))
+        if row['kt'].startswith('ed'):
+            pub = pk.public_key().public_bytes(ser.Encoding.Raw,
+                                               ser.PublicFormat.Raw)
+        elif row['kt'].startswith('ec'):
+            pub = pk.public_key().public_bytes(
+                ser.Encoding.X962, ser.PublicFormat.UncompressedPoint)
+        else:
+            bits = der_split(pyca_public_der(pk.public_key()))[1]
+            hl = 2 if bits[1] < 0x80 else 2 + (bits[1] & 0x7f)
+            pub = bits[hl + 1:]
+        # [0] attributes: a keyUsage attribute as in keys out of a PFX
+        attr = _der(0xa0, dSEQ(dOID('2.5.29.15'),
+                               _der(0x31, _der(0x03, b'\x00\x10'))))
+        pubf = _der(0x81, b'\0' + pub)
+        shape = row['shape']
+        items = [dINT(1) if shape.startswith('v1') else ver, alg, priv]
+        if 'attr' in shape:
+            items.append(attr)
+        if 'pub' in shape:
+            items.append(pubf)
+        plain = dSEQ(*items)
+        if row['enc'] == 'clear':
+            return dict(der=plain, typ=b'PRIVATE KEY', pw=None)
+        salt, iv = ENC_SALT[:16], bytes(range(0x40, 0x50))
+        dk = _hashlib.pbkdf2_hmac('sha256', pw.encode(), salt, 2048, 32)
+        der_bytes = dSEQ(
+            dSEQ(dOID(OID['pbes2']),
+                 dSEQ(dSEQ(dOID(OID['pbkdf2']),
+                           dSEQ(dOCT(salt), dINT(2048),
+                                dSEQ(dOID(OID['sha256']), dNULL()))),
+                      dSEQ(dOID(OID['aes256-cbc']), dOCT(iv)))),
+            dOCT(cbc_encrypt('aes256-cbc', dk, iv, plain)))
+        return dict(der=der_bytes, typ=b'ENCRYPTED PRIVATE KEY', pw=pw)
+    if scheme == 'ecpub':
+        from cryptography.hazmat.primitives import serialization as ser
+        oid = EC_OID[row['kt']]
+        fmt_ = ser.PublicFormat.CompressedPoint \
+            if row['point'] == 'compressed' \
+            else ser.PublicFormat.UncompressedPoint
+        q = pk.public_key().public_bytes(ser.Encoding.X962, fmt_)
+        alg = k.algorithm
+        curve = alg.split(b'-')[-1]
+        if row['container'] == 'spki':
+            spki = dSEQ(dSEQ(dOID('1.2.840.10045.2.1'), dOID(oid)),
+                        _der(0x03, b'\0' + q))
+            return dict(public=pem_wrap(b'PUBLIC KEY', spki), pw=None)
+        if row['container'] == 'openssh':
+            blob = S(alg) + S(curve) + S(q)
+            return dict(public=alg + b' ' + binascii.b2a_base64(blob)[:-1] +
+                        b' compressed@test\n', pw=None)
+        ca = key('ed25519', 40)
+        calg = alg + b'-cert-v01@openssh.com'
+        body = S(calg) + S(b'n' * 32) + S(curve) + S(q) + \
+            struct.pack('>QI', 1, 1) + S('id') + S(b'') + \
+            struct.pack('>QQ', 0, 2 ** 64 - 1) + S(b'') + S(b'') + S(b'') + \
+            S(ca.public_data)
+        blob = body + S(ca.sign(body, b'ssh-ed25519'))
+        return dict(cert=calg + b' ' + binascii.b2a_base64(blob)[:-1] + b'\n',
+                    pw=None)
     if scheme == 'ecpriv':
-        oid = {'ec256': '1.2.840.10045.3.1.7', 'ec384': '1.3.132.0.34',
-               'ec521': '1.3.132.0.35'}[row['kt']]
+        oid = EC_OID[row['kt']]
         from cryptography.hazmat.primitives import serialization as ser
         d = pk.private_numbers().private_value
         n = (pk.curve.key_size + 7) // 8
-        q = pk.public_key().public_bytes(ser.Encoding.X962,
-                                         ser.PublicFormat.UncompressedPoint)
+        q = pk.public_key().public_bytes(
+            ser.Encoding.X962, ser.PublicFormat.CompressedPoint
+            if row['pub'] == 'compressed'
+            else ser.PublicFormat.UncompressedPoint)
         items = [dINT(1), dOCT(d.to_bytes(n, 'big'))]
         if row['params'] == 'present':
             items.append(_der(0xa0, dOID(oid)))
-        if row['pub'] == 'present':
+        if row['pub'] != 'absent':
             items.append(_der(0xa1, _der(0x03, b'\0' + q)))
         sec1 = dSEQ(*items)
         if row['container'] == 'sec1':
